@@ -98,6 +98,8 @@ theorem ct_batch (fuel : Nat) (b : Bool) : DM.All ContractReq (fskOokReadPayload
   split
   · exact DM.All_pure _
   · split
+    · exact DM.All_fail _
+    split
     · repeat (first | exact ct_packetCopy _ _ | dm_step | ct_leaf | split | dsimp only)
     · split
       · rename_i hc
